@@ -135,4 +135,39 @@ Proof.
   - unfold BTreeInv.cells_in in Hallin. rewrite Forall_forall in Hallin. apply Hallin. exact Hsepin.
 Qed.
 
+Lemma leaf_put_ires (l : leaf) pos (e : entry) np lo hi :
+  leaf_ok lo hi l -> insert_at pos e (lcells l) = om_ins V e (lcells l) -> ~ In (fst e) (keys (lcells l)) ->
+  lo_ok lo (fst e) -> hi_ok hi (fst e) -> csize e + SLOT <= lfree V l ->
+  ires_ok 0 lo hi (Leaf l) e (IOk (Leaf (leaf_put V vlen l pos e)) np).
+Proof.
+  intros Hok Heq Hn Hlo Hhi Hroom. destruct (leaf_put_ok V vlen vlen_nonneg lo hi l pos e Hok Heq Hn Hlo Hhi Hroom) as [H1 H2].
+  cbn [ires_ok BTreeInv.bounded]. rewrite !abs_leaf. split; assumption.
+Qed.
+
+Lemma leaf_ins_ok m rm (l : leaf) (e : entry) np lo hi :
+  leaf_ok lo hi l -> lo_ok lo (fst e) -> hi_ok hi (fst e) ->
+  (m = MAppend -> forall x, In x (lcells l) -> klt (fst x) (fst e)) ->
+  (lcells l = [] -> lfree V l < csize e + SLOT -> lo_lt lo (fst e)) ->
+  ires_ok 0 lo hi (Leaf l) e (leaf_ins V vlen m rm l e np).
+Proof.
+  intros Hok Hlo Hhi Happ Hstrict. pose proof Hok as (Hs & Hin & Hsz). unfold leaf_ins. destruct m.
+  - destruct (negb (lguard V l)); [exact I|]. destruct (Z.leb_spec (csize e + SLOT) (lfree V l)) as [Hr | Hr].
+    + destruct (lfind V (fst e) (lcells l)) as [f pos] eqn:Ef. destruct f.
+      * cbn [ires_ok]. rewrite abs_leaf. destruct (lfind_found V _ _ _ Ef) as (v & Hv).
+        change (fst e) with (fst (fst e, v)). apply in_map. eapply nth_error_In. exact Hv.
+      * apply leaf_put_ires; try assumption; [eapply lfind_ins; exact Ef | eapply lfind_notin; eassumption].
+    + apply split_leaf_ok; try assumption. intros Hc. apply Hstrict; assumption.
+  - destruct (lfind V (fst e) (lcells l)) as [f pos] eqn:Ef. destruct f.
+    + cbn [ires_ok]. rewrite abs_leaf. destruct (lfind_found V _ _ _ Ef) as (v & Hv).
+      change (fst e) with (fst (fst e, v)). apply in_map. eapply nth_error_In. exact Hv.
+    + destruct (negb (lguard V l)); [exact I|]. destruct (Z.leb_spec (csize e + SLOT) (lfree V l)) as [Hr | Hr].
+      * apply leaf_put_ires; try assumption; [eapply lfind_ins; exact Ef | eapply lfind_notin; eassumption].
+      * apply split_leaf_ok; try assumption. intros Hc. apply Hstrict; assumption.
+  - destruct (negb (lguard V l)); [exact I|]. destruct (Z.leb_spec (csize e + SLOT) (lfree V l)) as [Hr | Hr].
+    + specialize (Happ eq_refl). apply leaf_put_ires; try assumption.
+      * rewrite insert_at_length. apply append_ins. exact Happ.
+      * apply all_lt_notin. exact Happ.
+    + apply split_leaf_ok; try assumption. intros Hc. apply Hstrict; assumption.
+Qed.
+
 End LI.
